@@ -298,7 +298,7 @@ def run_traced(job, opt=None):
         wj["trace"] = False
         try:
             with contextlib.redirect_stdout(io.StringIO()):
-                opt.optimize(build_task({k: v for k, v in wj.items() if not k.startswith("_")}), mode=mode, workers=job.get("workers"))
+                opt.optimize(build_task({k: v for k, v in wj.items() if not k.startswith("_")}), mode=job["warmup"].get("mode", mode), workers=job.get("workers"))
         except Exception:  # noqa — the warm-up's own outcome is not what is being judged
             pass
     out["cfg_before"] = _dump(opt._config)
